@@ -32,6 +32,10 @@ def run(chk, tier):
     E.lazy_rendering(chk, F, 'R05.7', 'std')
     from props import c08
     c08.eval_wiring(chk, F, 'R05.8', 'std')
+    # R05.11 the hand-written forwarders of the delegation helper (Display / Debug behind mock-core) hand the caller's arguments - the very
+    # Formatter, with its width / fill / flags - to the mock's own method and return its result (shared with C15/C20)
+    from props import c20
+    c20.supertrait_forwarders(chk, load(chk, 'mocks'), 'R05.11', 'mocks')
     # R05.10 'returns the answer's result unchanged' for borrowed return kinds: the only way an answer can produce a borrow is make_ref,
     # which must lend exactly the value it was given (shared with C13: push_node returns the node inserted for this call's value)
     from props import c13
